@@ -843,23 +843,9 @@ Definition spec_ok (c : case) (o : obs) : bool :=
 (* ------------------------------------------------------------------ *)
 (* well-formed cases and the regions of the known findings *)
 
-(* HEAD raises TypeError out of the query when SUM meets an xsd:boolean and another datatyped
-   literal in one group (type_promotion KeyError, see notes F-C08i): no SUM argument may take a
-   boolean value *)
-Definition is_bool (o : option term) : bool := match o with Some (TBool _) => true | _ => false end.
-Definition sum_args (c : case) : list texpr :=
-  flat_map (fun va => match a_kind (snd va), a_arg (snd va) with ASum, Some e => [e] | _, _ => [] end) (c_aggs c)
-  ++ match c_having c with
-     | Some (HAgg a _ _) => match a_kind a, a_arg a with ASum, Some e => [e] | _, _ => [] end
-     | _ => []
-     end.
-Definition sum_bool_free (c : case) : bool :=
-  forallb (fun e => negb (existsb is_bool (ovals e (c_input c)))) (sum_args c).
-
 Definition wf (c : case) : bool :=
   match c_group c with
   | None => match c_aggs c, c_having c with [], None => true | _, _ => false end
   | Some gv => nodupb N.eqb (gv ++ map fst (c_aggs c))
                && match c_having c with Some (HKey v _ _) => memb N.eqb v gv | _ => true end
-               && sum_bool_free c
   end.
